@@ -175,6 +175,18 @@ func matchTraversal(ts []cfgcorpus.Tok, tr hcl.Traversal) bool {
 					return false
 				}
 			case s.Key.Type() == cty.String:
+				if _, ok := next(hclsyntax.TokenOHeredoc); ok {
+					// a constant string key may also be written as a heredoc
+					for i < len(ts) && ts[i].Type == hclsyntax.TokenStringLit {
+						i++
+					}
+					if _, ok := next(hclsyntax.TokenCHeredoc); !ok {
+						return false
+					}
+					// the newline that ends the heredoc
+					next(hclsyntax.TokenNewline)
+					break
+				}
 				if _, ok := next(hclsyntax.TokenOQuote); !ok {
 					return false
 				}
